@@ -472,6 +472,7 @@ def schedule_run(
     ref_pre: Callable[[World], None] | None = None,
     setup: Callable[[World], None] | None = None,
     window_at: Any = None,
+    lock_seconds: float = 60.0,
 ) -> bool:
     """One worker; at choice point i the message delivered next is the choices[i]-th of the
     currently deliverable ones (at most ``fanout`` candidates), left un-acked if noack[i]; an
@@ -480,7 +481,7 @@ def schedule_run(
     with hx.Path("schedule:%s:%s" % (prop, workload)) as P:
         with hx.native():
             ref = reference(workload, events, pre=ref_pre, tag=ref_tag) if compare != "none" else None
-            w = World(events=events)
+            w = World(events=events, lock_seconds=lock_seconds)
             try:
                 wf = WORKLOADS[workload]()
                 spec = spec_of(wf)
@@ -943,7 +944,7 @@ def post_handled_once(w: World, snap: dict[str, Any], info: dict[str, Any]) -> t
     return None
 
 
-def dedup_run(workload: str, noack: list[Any], inject_at: Any, what: str, trust: bool, choices: list[Any] | None = None) -> bool:
+def dedup_run(workload: str, noack: list[Any], inject_at: Any, what: str, trust: bool, choices: list[Any] | None = None, lock_seconds: float = 1.0) -> bool:
     inj = {"restart": inject_restart, "reset": inject_filter_reset, "none": None}[what]
     mode = {"disc2": "counts", "nofm23": "counts", "diamond_fail": "workflow", "choice": "workflow"}.get(workload, "reference")
 
@@ -953,4 +954,4 @@ def dedup_run(workload: str, noack: list[Any], inject_at: Any, what: str, trust:
             w.processor.config.dedup_trust_negative_cache = True
 
     return schedule_run("C09", workload, choices or [], noack=noack, inject_at=inject_at if inj else None, inject=inj,
-                        monitors=("C02",), compare=mode, post=post_handled_once, setup=setup)
+                        monitors=("C02",), compare=mode, post=post_handled_once, setup=setup, lock_seconds=lock_seconds)
